@@ -164,8 +164,11 @@ CHECKS['C14'] = dict(
          'estimate(recycle=True) reads the newest; pickle round trip with symbolic estimates: every statistic, table cell '
          'and report line of the reloaded object equals the original; HTML/LaTeX/F12/printed reports list every parameter '
          'with its (symbolic) value, also for names sharing their first ten characters.',
-    note='NOT claimed: TOML parameter-file round trip (tomlkit parsing / float text not executable on proxies). Stubs: '
-         'symbolic directory model, pickle -> object store with deep copies, numpy/scipy contracts of C08.',
+    note='Parameter files: every parameter of every section gets an admissible value (numbers symbolic, both boolean values, '
+         'every algorithm name), the set is dumped and read into a fresh object through the real generate_document / '
+         'import_document / dump_file / read_file with tomlkit replaced by a document model that keeps values (TOML text '
+         'formatting and parsing by tomlkit itself are NOT claimed). Stubs: symbolic directory model, pickle -> object store '
+         'with deep copies, numpy/scipy contracts of C08.',
     design='DESIGN.md 1/C14')
 CHECKS['C16'] = dict(
     text='For 9 catalog structures (independent, shared controller, nested in first/later alternative, three controllers, '
